@@ -5,6 +5,7 @@ use crate::core::{Failure, Report};
 
 pub mod c01;
 pub mod c02;
+pub mod c04;
 pub mod c05;
 pub mod c08;
 pub mod c12;
@@ -21,6 +22,7 @@ pub fn run(prop: &str, report: &Report) -> i32 {
     match prop {
         "C01" => c01::run(report),
         "C02" => c02::run(report),
+        "C04" => c04::run(report),
         "C05" => c05::run(report),
         "C08" => c08::run(report),
         "C12" => c12::run(report),
@@ -39,6 +41,7 @@ pub fn replay(f: &Failure) -> i32 {
     match f.check.as_str() {
         "c01a" => crate::core::replay_case(f, c01::case_a),
         "c02" => crate::core::replay_case(f, c02::case),
+        "c04" => crate::core::replay_case(f, c04::case),
         "c05" => crate::core::replay_case(f, c05::case),
         "c08" => crate::core::replay_case(f, c08::case),
         "c12a" => crate::core::replay_case(f, c12::case),
